@@ -94,7 +94,7 @@ package lexer
 //@   ensures [C19:inv] LexInv(l) && Advanced(l, old(l.position), old(l.input), old(l.lineNumber))
 //@   ensures [C19:lexeme] result == substr(l.input, old(l.position), l.position)
 //@   ensures [C19:run] SameLineRun(l, old(l.position), LineStart(l.input, old(l.position)), old(l.lineNumber))
-//@   ensures [C19:nonempty] (uIsLetter(old(l.ch)) || old(l.ch) == '_') ==> l.position > old(l.position)
+//@   ensures [C18,C19:nonempty] (uIsLetter(old(l.ch)) || old(l.ch) == '_') ==> l.position > old(l.position)
 //@   ensures [C19:unmoved] l.position == old(l.position) ==> (l.ch == old(l.ch) && l.prevUtf8CharNumber == old(l.prevUtf8CharNumber) && l.utf8CharNumber == old(l.utf8CharNumber))
 //@   loop 1
 //@     invariant LexInv(l) && Advanced(l, old(l.position), old(l.input), old(l.lineNumber)) && ValidUTF8(l.input) && start == old(l.position)
@@ -109,7 +109,7 @@ package lexer
 //@   ensures [C19:inv] LexInv(l) && Advanced(l, old(l.position), old(l.input), old(l.lineNumber))
 //@   ensures [C19:lexeme] result == substr(l.input, old(l.position), l.position)
 //@   ensures [C19:run] SameLineRun(l, old(l.position), LineStart(l.input, old(l.position)), old(l.lineNumber))
-//@   ensures [C19:nonempty] uIsDigit(old(l.ch)) ==> l.position > old(l.position)
+//@   ensures [C18,C19:nonempty] uIsDigit(old(l.ch)) ==> l.position > old(l.position)
 //@   ensures [C19:unmoved] l.position == old(l.position) ==> (l.ch == old(l.ch) && l.prevUtf8CharNumber == old(l.prevUtf8CharNumber) && l.utf8CharNumber == old(l.utf8CharNumber))
 //@   loop 1
 //@     invariant LexInv(l) && Advanced(l, old(l.position), old(l.input), old(l.lineNumber)) && ValidUTF8(l.input) && start == old(l.position)
